@@ -299,20 +299,35 @@ func classify(c c08Case) verdict {
 
 // ---- running
 
-func announcedPackSize(s loginpeer.Script) int {
-	size := 512
-	for _, r := range [][]rc.P{s.R1, s.R2} {
+// announcedPackSize is the last packet size announced before Login has what it waits for;
+// certain is false if a response goes on with another announcement after its final DONE (or
+// does not arrive completely): whether that one is applied by the time Login returns depends on
+// the packetisation.
+func announcedPackSize(s loginpeer.Script) (size int, certain bool) {
+	size, certain = 512, true
+	for ri, r := range [][]rc.P{s.R1, s.R2} {
+		if (ri == 0 && s.Stall1) || (ri == 1 && s.Stall2) {
+			certain = false
+		}
+		finalSeen := false
 		for _, p := range r {
+			if p.Done != nil && p.Done.Status == rc.DoneFinal {
+				finalSeen = true
+			}
 			if p.Env != nil {
 				for _, m := range p.Env.Members {
 					if m.Type == rc.EnvPackSize {
+						if finalSeen {
+							certain = false
+							continue
+						}
 						size, _ = strconv.Atoi(m.New)
 					}
 				}
 			}
 		}
 	}
-	return size
+	return size, certain
 }
 
 // runCase judges one script. Verdicts that rest on the wall clock alone (Login not back in
@@ -390,7 +405,7 @@ func runCaseOnce(c c08Case, patience int) *vh.Failure {
 			prevConn, prevCaps = res.Conn, *cp
 			prevMu.Unlock()
 		}
-		if want := announcedPackSize(c.Script); res.Conn.PacketSize() != want {
+		if want, certain := announcedPackSize(c.Script); certain && res.Conn.PacketSize() != want {
 			return vh.Failf("C08/packet-size-not-adopted", "%s: PacketSize() = %d, server announced %d", where, res.Conn.PacketSize(), want)
 		}
 		vh.Label("verdict:accept")
@@ -591,7 +606,13 @@ func editsFor(s loginpeer.Script, plain bool) []edit {
 		for i := 0; i <= len(ps); i++ {
 			i := i
 			i32 := int32(0)
-			for _, x := range []rc.P{{Msg: &rc.Msg{ID: 13}}, {RetStat: &i32}, {EED: &rc.EED{MsgNumber: 4002, Class: 14, Msg: "Login failed."}}} {
+			// (the last three are packages the channel filters out: an informational message, an
+			// environment change, a packet size announcement - harmless wherever they stand, also
+			// between the format and the values of the key parameters)
+			for _, x := range []rc.P{{Msg: &rc.Msg{ID: 13}}, {RetStat: &i32}, {EED: &rc.EED{MsgNumber: 4002, Class: 14, Msg: "Login failed."}},
+				{EED: &rc.EED{MsgNumber: 5703, Class: 10, Status: rc.EEDInfo, Msg: "Changed language setting to 'us_english'.", Server: "ASE"}},
+				{Env: &rc.EnvChange{Members: []rc.EnvMember{{Type: rc.EnvLang, New: "us_english", Old: ""}}}},
+				{Env: &rc.EnvChange{Members: []rc.EnvMember{{Type: rc.EnvPackSize, New: "2048", Old: "512"}}}}} {
 				x := x
 				es = append(es, edit{fmt.Sprintf("insert:R%d[%d]=%s", r, i, pkggen.KindOf(x)), func(s *loginpeer.Script) {
 					p := resp(s, r)
@@ -654,6 +675,11 @@ func TestSingleEditsExhaustive(t *testing.T) {
 			base := validScript(plain, key, []byte("0123456789abcdef"), extras, extras, map[bool]int{false: 0, true: 40000}[extras])
 			// positive control
 			if !e.Do(c08Case{Cfg: baseCfg(plain), Key: key, Script: base, Edit: "none"}) {
+				return
+			}
+			// the valid replies of the OTHER flow: a client that asked for password encryption is
+			// not logged in by the plain flow's acceptance, and vice versa
+			if !e.Do(c08Case{Cfg: baseCfg(!plain), Key: key, Script: base, Edit: "cross-flow: valid replies of the other flow"}) {
 				return
 			}
 			for _, ed := range editsFor(base, plain) {
